@@ -66,6 +66,10 @@ CHECKS.update({
    text="Exhaustive cross product on fresh worlds with crash attribution: 13 persisted log shapes (single-writer chains 0..6, replicated-only, two/three heads, merged) x every limit from -2 to length+2 x three ways of giving the limit; reopen over the persisted cache and load. No panic/error/hang; exactly min(n,total) entries listed, in log order, containing the newest, and exactly the last n for single-writer logs.",
    note="Trusted: sim environment; MaxHistory is given through the store constructor.",
    tech="exhaustive enumeration of a finite input family (log shapes x limits) against the real implementation in crash-isolated workers"),
+ "C13": dict(cat="exploration", ref="5/C13",
+   text="Exhaustive cross product on fresh worlds with crash attribution: 8 log shapes (incl. replication in progress while saving) x 3 store types x 12 payload-size landmarks, plus windows of consecutive sizes around the measured payload sizes at which the marshalled entry and header cross the 16-bit length limit. Save, restart on the same cache and blockstore, load from snapshot: a save error passes, otherwise the reload must reproduce entries, order, heads and view; panic or hang is a violation.",
+   note="Trusted: sim environment with boxo's real unixfs importer/reader. Sizes are a boundary family, not every integer.",
+   tech="exhaustive enumeration of a finite boundary-value input family against the real implementation in crash-isolated workers"),
 })
 NOT_APPLICABLE = []
 ALL = ["C%02d" % i for i in range(1, 21)]
